@@ -589,3 +589,30 @@ m('C08', 'jvec: forward tolerance for the sensitivity solve', SIMS,
 m('C08', 'jtvec: multiplies by weights instead of dividing', SIMS,
   "            self.data.residual[...] = vector/self.data.weights.data",
   "            self.data.residual[...] = vector*self.data.weights.data", 'C08.V4')
+
+# ------------------------------------------------------------------- C09
+m('C09', '_point_vector: upper x index weighted with ex', FIELDS,
+  "        s[ix1, iy, iz] = rx*ey*ez", "        s[ix1, iy, iz] = ex*ey*ez", 'C09.PV')
+m('C09', 'get_receiver: mask uses nodes_y[0]', FIELDS,
+  "(xi[:, 1] < grid.nodes_y[1]) | (xi[:, 1] > grid.nodes_y[-2]) |",
+  "(xi[:, 1] < grid.nodes_y[0]) | (xi[:, 1] > grid.nodes_y[-2]) |", 'C09.RC')
+m('C09', 'get_receiver: column index swapped in the mask', FIELDS,
+  "(xi[:, 1] < grid.nodes_y[1]) | (xi[:, 1] > grid.nodes_y[-2]) |",
+  "(xi[:, 2] < grid.nodes_y[1]) | (xi[:, 1] > grid.nodes_y[-2]) |", 'C09.RC')
+m('C09', 'rotation: sin <-> cos in the y factor', ELEC,
+  "                     sin(azimuth)*cos(elevation),",
+  "                     cos(azimuth)*sin(elevation),", 'C09.RO')
+m('C09', '_point_vector: fy scaled by the z factor', FIELDS,
+  "    vfield.fy *= srcdir[1]", "    vfield.fy *= srcdir[2]", 'C09.PV')
+m('C09', '_edge_curl_factor: dual width without the low cell', FIELDS,
+  "                dx = hx[ixm] + hx[ix]", "                dx = hx[ix] + hx[ix]", 'C09.EC')
+m('C09', '_edge_curl_factor: low-face guard removed', FIELDS,
+  "                if ix != 0:\n", "                if True:\n", 'C09.EC')
+m('C09', 'get_receiver: components overwrite instead of accumulate', FIELDS,
+  "            resp += factors[i]*maps.interpolate(grid, ff, xi, **opts)",
+  "            resp = factors[i]*maps.interpolate(grid, ff, xi, **opts)", 'C09.RC')
+n('C09', 'get_receiver: NaN mask applied before the accumulation', FIELDS,
+  "    resp = np.zeros(xi.shape[0], dtype=field.field.dtype)\n",
+  "    resp = np.zeros(xi.shape[0], dtype=field.field.dtype)\n    resp[(xi[:, 0] < grid.nodes_x[1])] = np.nan\n")
+n('C09', '_point_vector: factor order', FIELDS,
+  "        s[ix1, iy, iz] = rx*ey*ez", "        s[ix1, iy, iz] = ez*rx*ey")
